@@ -122,7 +122,7 @@ func TestC11_TickerClock(t *testing.T) {
 				for _, nr := range []bool{false, true} {
 					c := tickerClockCase{RTOms: rtoms, Size: size, NoRetrans: nr}
 					var err error
-					if perr := pbt.Safely(func() { err = runTickerClock(c) }); perr != nil {
+					if perr := pbt.Safely(func() { err = guardDeadlock(120*time.Second, "ticker-clock scenario", func() error { return runTickerClock(c) }) }); perr != nil {
 						err = perr
 					}
 					rec.Case("ticker-clock", evid.NewH().Str(fmt.Sprint(c)).Sum(), true, func() any { return c })
